@@ -80,6 +80,7 @@ class UnitResult:
         self.rewrites = {}
         self.drift = 0
         self.stderr_tail = ""
+        self.imports = []
 
     def fn_props(self, fn, default):
         short = fn.split("::")[-1]
@@ -245,6 +246,7 @@ def verify_unit(name, spec_path, repo, build_dir, extra=None, do_canary=True, ti
         for k, v in r.rewrites_applied.items():
             res.rewrites[k] = res.rewrites.get(k, 0) + v
     res.trusted = trusted_scan(text)
+    res.imports = list(u.imports)
     try:
         toks, franges = fn_ranges_of(text)
     except (ValueError, IndexError) as e:
@@ -292,7 +294,9 @@ def verify_unit(name, spec_path, repo, build_dir, extra=None, do_canary=True, ti
         msg = d.get("message", "")
         if msg.startswith("aborting due to"):
             continue
-        spans = d.get("spans", [])
+        allspans = d.get("spans", [])
+        gbase = os.path.basename(gen)
+        spans = [s for s in allspans if os.path.basename(s.get("file_name", "")) == gbase]
         prim = [s for s in spans if s.get("is_primary")] or spans
         line = prim[0]["line_start"] if prim else 0
         if any(x in msg for x in RLIMIT_MSGS):
